@@ -117,7 +117,66 @@ func vGenScenario(t *rapid.T, o vScenOpts) vScenario {
 	}
 	s.Log, s.Days = vGenLog(t, vLogOpts{MinDays: o.MinDays, MaxDays: maxdays, MaxEntries: maxe, Foods: foods, Exact: s.Exact,
 		Sorted: o.Sorted, Layout: lo, Window: o.Window, Notes: o.Notes, DateLayout: o.DateLayout}, "log")
+	vAddRelatedEntries(t, &s)
 	return s
+}
+
+// vAddRelatedEntries: one scenario in six gets a few log entries whose *relation to each other* matters rather than
+// their own shape: (a) two foods whose name and quantity spell the same text when glued together in either order
+// ("gl~b1: 2" / "gl~b: 12", "gl~c: 15" / "5gl~c: 1"), (b) in decimal mode two large contributions to one element that
+// cancel up to a few cents (1234567890.75 and -1234567890). The recipes they need are appended to the book.
+func vAddRelatedEntries(t *rapid.T, s *vScenario) {
+	if len(s.Log.Recs) == 0 || len(s.Basics) == 0 || rapid.IntRange(0, 5).Draw(t, "related") != 0 {
+		return
+	}
+	plain := vLayout{Indent: "  ", Sep: ": ", EOL: "\n"}
+	e := s.Basics[rapid.IntRange(0, len(s.Basics)-1).Draw(t, "related.e")]
+	e2 := s.Basics[rapid.IntRange(0, len(s.Basics)-1).Draw(t, "related.e2")]
+	addRecipe := func(name string, entries ...[2]string) {
+		r := vRec{Head: name, HL: vLayout{EOL: "\n"}}
+		for _, en := range entries {
+			r.Lines = append(r.Lines, vLine{Kind: vkEntry, Name: en[0], Num: en[1], L: plain})
+		}
+		s.Book.Recs = append(s.Book.Recs, r)
+		s.Book.NoFinalNL = false
+		s.Recipes = append(s.Recipes, name)
+	}
+	logIt := func(name, qty string, label string) {
+		di := rapid.IntRange(0, len(s.Log.Recs)-1).Draw(t, label)
+		s.Log.Recs[di].Lines = append(s.Log.Recs[di].Lines, vLine{Kind: vkEntry, Name: name, Num: qty, L: plain})
+		s.Log.NoFinalNL = false
+	}
+	switch kind := rapid.IntRange(0, 2).Draw(t, "related.kind"); {
+	case kind == 0: // name then quantity glued: "gl~b1"+"2" = "gl~b"+"12"
+		addRecipe("gl~b", [2]string{e, "2"})
+		addRecipe("gl~b1", [2]string{e, "3"}, [2]string{e2, "1"})
+		logIt("gl~b1", "2", "related.d1")
+		logIt("gl~b", "12", "related.d2")
+	case kind == 1: // quantity then name glued: "15"+"gl~c" = "1"+"5gl~c"
+		addRecipe("gl~c", [2]string{e, "2"})
+		addRecipe("5gl~c", [2]string{e, "3"}, [2]string{e2, "1"})
+		logIt("gl~c", "15", "related.d1")
+		logIt("5gl~c", "1", "related.d2")
+	case s.Exact:
+		addRecipe("nc~pos", [2]string{e, "1"})
+		addRecipe("nc~neg", [2]string{e, "-1"})
+		d := "related.d"
+		di := rapid.IntRange(0, len(s.Log.Recs)-1).Draw(t, d)
+		for _, en := range [][2]string{{"nc~pos", "8"}, {"nc~neg", "8"}} { // exact cancellation
+			s.Log.Recs[di].Lines = append(s.Log.Recs[di].Lines, vLine{Kind: vkEntry, Name: en[0], Num: en[1], L: plain})
+		}
+		s.Log.NoFinalNL = false
+	default:
+		addRecipe("nc~pos", [2]string{e, "1"})
+		addRecipe("nc~neg", [2]string{e, "-1"})
+		big := []string{"5000000", "123456789", "1234567890", "99999999999"}[rapid.IntRange(0, 3).Draw(t, "related.big")]
+		cents := []string{".75", ".5", ".25", ".01", ".99"}[rapid.IntRange(0, 4).Draw(t, "related.cents")]
+		di := rapid.IntRange(0, len(s.Log.Recs)-1).Draw(t, "related.d")
+		for _, en := range [][2]string{{"nc~pos", big + cents}, {"nc~neg", big}} {
+			s.Log.Recs[di].Lines = append(s.Log.Recs[di].Lines, vLine{Kind: vkEntry, Name: en[0], Num: en[1], L: plain})
+		}
+		s.Log.NoFinalNL = false
+	}
 }
 
 // Rename replaces a name everywhere it occurs (headings, entries, name lists).
